@@ -148,7 +148,10 @@ def worker(args, scratch):
                         resp = first if bi == 0 else conn.read_response(method.encode())
                         check(vid, method, target, hs, body, chunked, spec, resp, dest, len(batch), segs is not None, after_host_close=maybe_closed and bi == 0)
                 except Exception as e:  # noqa
-                    viol("exchange-failed", {"conn": ci, "dest": dest, "ids": [b[0] for b in batch], "err": repr(e), "after_host_close": maybe_closed})
+                    if common.is_timeout(e):
+                        res.setdefault("inconclusive", []).append("client socket watchdog (60 s) fired while waiting for the proxy; not a verdict") if not res.get("inconclusive") else None
+                    else:
+                        viol("exchange-failed", {"conn": ci, "dest": dest, "ids": [b[0] for b in batch], "err": repr(e), "after_host_close": maybe_closed})
                     break
                 maybe_closed = closed
             conn.close()
